@@ -9,7 +9,7 @@ namespace Mp
 theorem depsOf_declared (isOpen : Bool) (fs : List CField) (n : String) (h : (depsOf (.struct isOpen fs) n).isSome) :
     n ∈ fs.map (·.name) := by
   unfold depsOf at h
-  simp only [findValueAtPath, stepKey] at h
+  simp only [findValueAtPath, stepKey, stepStruct] at h
   cases hf : List.find? (fun f => f.name == n && if f.hidden = true then n.startsWith "_" && !n.contains '-' && f.isReg else true) fs with
   | none =>
     rw [hf] at h
